@@ -7,6 +7,7 @@ import (
 	"fmt"
 	"github.com/form3tech-oss/f1/v2/internal/trigger/api"
 	"github.com/form3tech-oss/f1/v2/pkg/f1"
+	"math"
 	"os"
 	"sort"
 	"strconv"
@@ -105,6 +106,9 @@ func TestC02Pool(t *testing.T) {
 	}
 	for i := 0; i < kit.N(600, 8000); i++ {
 		usersLimitHistory(o, r)
+	}
+	for i := 0; i < kit.N(12, 120); i++ {
+		usableHistory(o, r)
 	}
 	for i := 0; i < n; i++ {
 		switch r.Intn(3) {
@@ -246,6 +250,48 @@ func usersLimitHistory(o *kit.Out, r *kit.Rand) {
 	o.Case("c03_ok", []string{kit.Ints(ob.idsDesc()), kit.I(int64(limit)), "T"}, "T", "users-limit", "ids", "nt")
 }
 
+// ONE tick of more requests than workers (any number, not only multiples of the pool size):
+// every iteration waits until as many as there are workers execute at once - all of them can
+func usableHistory(o *kit.Out, r *kit.Rand) {
+	nw := int(kit.Pick(r, 2, 3, 4, 10, 16))
+	n := nw + int(r.Range(1, int64(2*nw)))
+	ob := &obs{live: map[*f1testing.T]bool{}}
+	var arrived atomic.Int64
+	rendezvous := make(chan struct{})
+	var once sync.Once
+	var ok atomic.Bool
+	m, pool, stats := newPool(nw, 0, func(t *f1testing.T) {
+		ob.enter(t)
+		defer ob.leave(t)
+		arrived.Add(1)
+		if ob.inflight.Load() >= int64(nw) { // as many executing right now as there are workers
+			once.Do(func() { ok.Store(true); close(rendezvous) })
+		}
+		select {
+		case <-rendezvous:
+		case <-time.After(1500 * time.Millisecond):
+		}
+	})
+	ctx, cancel := context.WithCancel(context.Background())
+	wctx := pool.Start(ctx)
+	pool.Trigger(wctx, n)
+	deadline := time.Now().Add(5 * time.Second)
+	for ob.started.Load() < int64(n) && time.Now().Before(deadline) {
+		time.Sleep(200 * time.Microsecond)
+	}
+	cancel()
+	if !waitDone(m, 30*time.Second) {
+		o.Fail("pool-not-complete", "trigger pool did not complete within 30s after cancel")
+		return
+	}
+	_ = stats
+	o.Count("history", "one tick, all workers usable")
+	if !ok.Load() {
+		o.Fail("not-all-workers-usable", fmt.Sprintf("one tick of %d requests on a pool of %d workers: the workers never all executed at the same time (at most %d did)", n, nw, ob.hwm.Load()))
+	}
+	o.Case("c04_ok", []string{kit.I(ob.hwm.Load()), kit.I(nw), kit.B(ob.shared.Load()), kit.B(ok.Load())}, "T", "usable", "conc", "nt")
+}
+
 // cancel races with the ticking goroutine: the tick in flight may be refused
 func racingCancelHistory(o *kit.Out, r *kit.Rand) {
 	nw := int(kit.Pick(r, 1, 2, 4, 16))
@@ -367,8 +413,8 @@ func TestC04Runs(t *testing.T) {
 				if n%3 == 1 {
 					t.Cleanup(func() { t.Cleanup(func() {}) })
 				}
-				// the first `conc` iterations only return once `conc` of them overlap
-				if n >= int64(conc) {
+				// the first iterations only return once `conc` of them execute at the same time
+				if ob.inflight.Load() >= int64(conc) {
 					once.Do(func() { rendezvousOK.Store(true); close(rendezvous) })
 				}
 				select {
@@ -376,7 +422,8 @@ func TestC04Runs(t *testing.T) {
 				case <-time.After(3 * time.Second):
 				}
 				if time.Since(runStart) > 60*time.Millisecond && !rendezvous2OK.Load() {
-					if arrived2.Add(1) >= int64(conc) {
+					arrived2.Add(1)
+					if ob.inflight.Load() >= int64(conc) {
 						once2.Do(func() { rendezvous2OK.Store(true); close(rendezvous2) })
 					}
 					select {
@@ -623,8 +670,17 @@ func TestC03Runs(t *testing.T) {
 			flags["distribution"] = "none"
 		}
 		yaml := ""
+		huge := mode != "file" && i%4 == 2
+		maxDur := 3 * time.Second
+		if huge {
+			// a limit at the far end of its type never binds: the run ends by its duration, with
+			// iterations numbered from 1
+			limit = kit.Pick(r, uint64(math.MaxUint64), math.MaxUint64-1, 1<<63, 1<<63+1, math.MaxInt64)
+			maxDur = 150 * time.Millisecond
+			o.Count("limit", "at the far end of uint64")
+		}
 		cfg := runkit.Config{Mode: mode, Flags: flags, Scenario: scenario, Ctx: context.Background(),
-			Opts: options.RunOptions{MaxDuration: 3 * time.Second, Concurrency: conc, MaxIterations: limit, IgnoreDropped: true}}
+			Opts: options.RunOptions{MaxDuration: maxDur, Concurrency: conc, MaxIterations: limit, IgnoreDropped: true}}
 		if mode == "file" {
 			// the limit binds in a rate stage (the first or the third) and a users stage follows it
 			limit = uint64(kit.Pick(r, r.Range(1, 60), r.Range(1, 60), r.Range(120, 400)))
@@ -660,8 +716,14 @@ func TestC03Runs(t *testing.T) {
 		ids := ob.idsDesc()
 		// the trigger keeps requesting until the limit stops it whenever the run ended early
 		ended := out.Elapsed < 2500*time.Millisecond
+		if huge {
+			ended = false
+			if len(ids) == 0 {
+				o.Fail("no-iteration-below-the-limit", fmt.Sprintf("%s run of 150ms with max-iterations %d: no iteration ran although the limit is nowhere near", mode, limit))
+			}
+		}
 		o.Count("mode", mode)
-		o.Case("c03_ok", []string{kit.Ints(ids), kit.I(limit), kit.B(ended)}, "T", "run", mode, "nt")
+		o.Case("c03_ok", []string{kit.Ints(ids), strconv.FormatUint(limit, 10), kit.B(ended)}, "T", "run", mode, "nt")
 	}
 }
 
